@@ -270,7 +270,10 @@ class H(explore.Harness):
         ws = tuple((w["id"], round(self.loop.time() - w["t0"], 6), w["timeout"], w["task"].done(), w["task"].cancelled(), w.get("cancel_requested", False), "adv_at" in w) for w in self.waiters)
         timers = tuple(sorted(round(h._when - self.loop.time(), 6) for h in self.loop._scheduled if not h._cancelled))
         regs = tuple(sorted((k, len(v)) for c in self.ctrls.values() for k, v in {**getattr(c, "_waiters", {}), **getattr(c, "_ble_futures", {})}.items()))
-        return (ws, timers, tuple(sorted(self.discovered)), regs, len(self.loop._ready), self.preempt)
+        from vt import canon as _c
+
+        generic = tuple(_c.canon(c, depth=2, skip=("_char_cache", "_loop", "_async_zeroconf_instance", "pairings", "aliases", "discoveries", "transports", "_tasks")) for c in self.ctrls.values())
+        return (ws, timers, tuple(sorted(self.discovered)), regs, len(self.loop._ready), self.preempt, generic, tuple(sorted(k for c in self.ctrls.values() for k in c.discoveries)))
 
     def outcome(self):
         def st(w):
